@@ -473,6 +473,16 @@ fn local_copy_prop(
         dest_to_copies: &FxIndexMap<Symbol, FxIndexSet<Value>>,
         replacements: &mut FxHashMap<Value, (Value, Replacement)>,
     ) -> bool {
+        // Call arguments are processed as loads too, but only typed pointers have a pointee
+        // that can be loaded. An untyped pointer (`raw_ptr`) or an integer obtained from a
+        // pointer still refers to a symbol, but nothing is known about what it points to.
+        if !src_val_ptr
+            .get_type(context)
+            .is_some_and(|ty| ty.is_typed_ptr(context))
+        {
+            return false;
+        }
+
         // For every `memcpy` that src_val_ptr is a destination of,
         // check if we can do the load from the source of that memcpy.
         if let Some(src_sym) = get_referred_symbol(context, src_val_ptr) {
